@@ -304,6 +304,15 @@ class History:
         if act == "Derive":
             self.streams.append(_derive(s, a["op"], a["t"], how))
             self.shadow.append(getattr(sh, a["op"])(codec.src(a["t"])))
+        elif act == "DeriveCross":
+            # the query of another dataset's stream becomes the body of the lambda: a second dataset node in the query,
+            # off the source chain
+            def cross(st, other):
+                lam = ast.Lambda(args=ast.arguments(posonlyargs=[], args=[ast.arg(arg="e")], kwonlyargs=[],
+                                                    kw_defaults=[], defaults=[]), body=other.query_ast)
+                return st.Select(lam)
+            self.streams.append(cross(s, self.streams[a["c"] - 1]))
+            self.shadow.append(cross(sh, self.shadow[a["c"] - 1]))
         elif act == "MetaData":
             d = ast.literal_eval(codec.src(a["t"]))
             self.streams.append(s.MetaData(d))
